@@ -396,6 +396,14 @@ def _r18_2(ctx):
 _r18_2.__name__ = 'r18_2'
 
 
+def _r12_2(ctx):
+    import props.c12 as c12
+    c12.r12_2(ctx)
+
+
+_r12_2.__name__ = 'r12_2'
+
+
 def run(ctx):
     import engine
-    engine.run_rules(ctx, [r13_1, r13_2, r13_3, r13_4, r13_5, dt.r02_6, _r18_2])
+    engine.run_rules(ctx, [r13_1, r13_2, r13_3, r13_4, r13_5, dt.r02_6, _r18_2, _r12_2])
